@@ -59,7 +59,7 @@ def _worker(job):
                    models_used=sorted(r.models_used), trusted=list(getattr(c, "trusted", [])),
                    contracts_used=sorted(r.contracts_used), obligations={}, samples=[], regions=carved)
         for name, ob in r.obligations.items():
-            o = dict(status=ob["status"], kind=ob["kind"], queries=ob["queries"], time=round(ob["time"], 4),
+            o = dict(status=ob["status"], kind=ob["kind"], queries=ob["queries"], time=round(ob["time"], 4), backends=ob.get("backends", {}),
                      detail=ob["detail"][:2000], unknown=ob["unknown_reasons"][:2], replays=[])
             if ob["status"] == "sat" and kind != "canary":
                 for m in ob["models"]:
@@ -119,6 +119,8 @@ def main(argv=None):
     for modname in spec["modules"]:
         mod = importlib.import_module(modname)
         for i, c in enumerate(getattr(mod, "CONTRACTS", [])):
+            if getattr(c, "assumed", False):
+                continue      # assumed contract on a function outside the subset: used at call sites, listed as assumption
             if pid in c.props and (not args.only or args.only in c.target):
                 jobs.append((pid, modname, i, tier, "contract"))
         for i, c in enumerate(getattr(mod, "CANARIES", [])):
@@ -139,6 +141,7 @@ def main(argv=None):
     n_obl = n_dis = 0
     per_fn, samples_out, trusted, models_used = [], [], set(), set()
     solver_time = 0.0
+    backend_queries = {}
     n_samples = n_samples_nontrivial = 0
     matched_findings = set()
 
@@ -186,6 +189,8 @@ def main(argv=None):
             full = f"{pid}/{r['target']}/{name}"
             n_obl += 1
             solver_time += o["time"]
+            for bk, cnt in o.get("backends", {}).items():
+                backend_queries[bk] = backend_queries.get(bk, 0) + cnt
             if o["status"] == "unsat":
                 n_dis += 1
                 if len(samples_out) < 6:
@@ -247,6 +252,8 @@ def main(argv=None):
                            status="bounded stand-in failed on the real code", replays=[fail]), open(rfile, "w"), indent=1, default=str)
             violations.append((f"{pid}/{br['function']}/{br['name']}", rfile, True))
             break
+        if br.get("failures"):
+            bounded[-1]["failures_in_known_regions"] = sum(1 for f_ in br["failures"] if match_finding(findings, br["function"], br["name"], f_, None) is not None)
 
     seen = set()
     for kf, full, rep in known_lines:
@@ -276,7 +283,9 @@ def main(argv=None):
             obligations=n_obl, discharged=n_dis + sum(1 for _ in []),
             checker_cmd=f".venv/bin/python -m pyvc.check {pid} --tier {tier}",
             trusted_base=sorted(trusted) + [f"model: {m}" for m in sorted(models_used)],
-            backend={"z3": {"version": _z3_version(), "obligations": n_obl, "solver_s": round(solver_time, 3)}},
+            backend={"z3": {"version": _z3_version(), "path_queries": backend_queries.get("z3", 0)},
+                     "cvc5": {"version": "1.4.0 (python binding)", "path_queries_decided_after_z3_unknown": backend_queries.get("cvc5", 0)},
+                     "solver_s": round(solver_time, 3)},
             functions_under_contract=per_fn,
             samples=samples_out or [dict(note="no discharged obligation to show")],
             known_findings=[dict(id=kf["id"], what=kf["what"], obligation=full) for kf, full, _ in known_lines if kf["id"] in seen],
@@ -326,11 +335,11 @@ def match_finding(findings, target, clause, replay, ob):
     for f in findings:
         if f.get("function") != target:
             continue
-        if f.get("clause") and f["clause"] != clause:
+        pred = f.get("match")
+        if f.get("clause") and f["clause"] != clause and pred is None:
             continue
         if replay is None:
             continue
-        pred = f.get("match")
         if pred is None:
             return f
         try:
